@@ -28,6 +28,15 @@ inductive Err where
   | indexError | keyError | valueError | typeError | attributeError | recursionError
 deriving DecidableEq, Repr
 
+/-- equality of results is decidable (for the `decide`d examples); scoped to this namespace -/
+scoped instance instDecEqExcept {ε α : Type} [DecidableEq ε] [DecidableEq α] : DecidableEq (Except ε α) :=
+  fun a b =>
+    match a, b with
+    | .ok x, .ok y => if h : x = y then isTrue (by rw [h]) else isFalse (fun e => h (by injection e))
+    | .error x, .error y => if h : x = y then isTrue (by rw [h]) else isFalse (fun e => h (by injection e))
+    | .ok _, .error _ => isFalse (fun e => by cases e)
+    | .error _, .ok _ => isFalse (fun e => by cases e)
+
 /-- `xs[i]` for `i ≥ 0` -/
 def getIdx {α : Type} (xs : List α) (i : Nat) : Except Err α :=
   match xs[i]? with
